@@ -106,6 +106,15 @@ def project_tasks(prop, tier, base):
     if prop == "C20":
         for k in range(2 if tier == "quick" else 8):
             tasks.append({"tid": "t%d" % k, "kind": "table", "seed": core.run_seed(base, 900000 + k)})
+        if tier == "quick":
+            # a seeded sample of the 2187-row presence-pattern table of `sync` (the thorough tier enumerates it)
+            for k in range(8):
+                tasks.append({"tid": "q%d" % k, "kind": "patterns", "seed": core.run_seed(base, 910000 + k), "sample": 40})
+        else:
+            n = 3 ** 6 * 3
+            step = 137
+            for k, lo in enumerate(range(0, n, step)):
+                tasks.append({"tid": "q%d" % k, "kind": "patterns", "seed": core.run_seed(base, 910000), "lo": lo, "hi": min(n, lo + step)})
     for k in range(n_hist):
         tasks.append({"tid": "h%d" % k, "kind": "gen", "seed": core.run_seed(base, k), "focus": prop})
     tasks = stored_tasks(prop, "project") + tasks
@@ -294,6 +303,7 @@ def project_coverage(prop, tier, stats, nruns, other, samples, pstats, wall, kno
         "probes": {k: stats.get(k, 0) for k in ("r3_checked", "r4_checked", "a2_checked", "c11_checked", "sp_checked", "twin_checks", "gen_ops",
                                                 "stray_after_kill_tolerated", "stdout_lines_unrecognised", "a3_checked", "a3_skipped_lossy_in_memory")},
         "a3_interface_checks": stats.get("a3", {}),
+        "invocation_table_rows": stats.get("table_rows", 0),
         "ended_by_other_property": other,
         "known_findings_hit": {fid: n for fid, (_k, n) in known_hit.items()},
         "workers": pstats.get("workers"),
@@ -434,6 +444,11 @@ def project_worker(task):
         sc = table_scenario(task["seed"])
         r = engine_project.execute(sc)
         return {"violations": r["violations"], "digest": r["digest"], "stats": r["stats"], "summary": None}
+    if kind == "patterns":
+        sc = pattern_scenario(task["seed"], task.get("lo", 0), task.get("hi", 0), task.get("sample"))
+        r = engine_project.execute(sc)
+        r["stats"]["table_rows"] = sum(1 for o in sc["ops"] if o["op"] == "cli")
+        return {"violations": r["violations"], "digest": r["digest"], "stats": r["stats"], "summary": None}
     if kind == "scenario":
         r = engine_project.execute(task["scenario"])
         return {"violations": r["violations"], "digest": r["digest"], "stats": r["stats"]}
@@ -446,6 +461,8 @@ def project_worker(task):
             sc["ops"][-1]["fault"] = task["fault"]
         elif t["kind"] == "table":
             sc = table_scenario(t["seed"])
+        elif t["kind"] == "patterns":
+            sc = pattern_scenario(t["seed"], t.get("lo", 0), t.get("hi", 0), t.get("sample"))
         else:
             sc = t["scenario"]
         # concretise relative fault addresses first
@@ -499,3 +516,23 @@ def table_scenario(seed):
         ops += pre + [op]
     return {"engine": "project", "seed": seed, "focus": "C20", "knobs": {"bufsize": 8192, "path_style": "abs"}, "files": {}, "ops": ops,
             "max_violations": 100}
+
+
+def pattern_scenario(seed, lo, hi, sample=None):
+    """A slice [lo, hi) of the full `sync` presence-pattern table (or a seeded sample of it) over one generated project."""
+    from dtsim import gen_project
+    from dtsim.core import Chooser
+
+    ch = Chooser(seed)
+    proj = gen_project.Project(ch, "C20")
+    # the table is about argument combinations, not about conversion fidelity: a plain description without return entry
+    proj.versions[0]["returns"] = None
+    if sample:
+        pats = sorted(Chooser(seed).fork("patterns").sample("rows", list(range(3 ** 6 * 3)), sample))
+    else:
+        pats = list(range(lo, hi))
+    ops = gen_project.sync_pattern_rows(proj, pats)
+    if lo == 0:
+        ops += gen_project.other_table_rows(proj)
+    return {"engine": "project", "seed": seed, "focus": "C20", "knobs": {"bufsize": 8192, "path_style": "abs"}, "files": {}, "ops": ops,
+            "max_violations": 200}
